@@ -453,7 +453,7 @@ func gnarkWidthCriticalSizes(w, padKind int, plonk bool, max int) []int {
 func TestC06(t *testing.T) {
 	r := rec.New("C06")
 	defer r.Flush()
-	r.Rule("value v (anchors 0, 2^16, 2^32, 2^48, 2^63, 2^64-2^32, p, 2^64, 2^n-1.., r with offsets -2..2; random of every bit length; random inside the range; field fractions y/2^k mod r with small y) x gadget {RangeCheck, RangeCheckQE on pairs, RangeCheckWithMaxBits(n), n in 1..64,96,128,144,192} x configuration {engine: native / plain / commit(padded to 70k checks), each also with USE_BIT_DECOMPOSITION_RANGE_CHECK; compiled R1CS and SCS built for native-range-checker wrapper / commit / forced bits; gnark test engine}; out-of-range values are also tried with dishonest limb hints and a dishonest bit-decomposition hint; 'populations': one w-bit check (w in 16,32,48,64) plus 0..72000 padding checks compiled for R1CS and SCS under the commit checker - circuits the chip refuses are counted, circuits that compile must be exact at 2^w-1, 2^(w+j), 2^(w+j)+1; sizes are rapid-drawn and additionally swept with one size per geometric bucket of ratio 1.15 (thorough 1.04) per builder and padding kind, and at every size where gnark's limb-width optimiser (cost formulas re-implemented from gnark's source) changes its choice or is tied, +-1.  Oracle: accepted <=> v < p (resp. v < 2^n); commit-mode widths not multiple of 16 may be refused.  Non-trivial = value within 2 of a range/field boundary or a dishonest hint; distinct = (v, n, configuration, hint).")
+	r.Rule("value v (anchors 0, 2^16, 2^32, 2^48, 2^63, 2^64-2^32, p, 2^64, 2^n-1.., r with offsets -2..2; random of every bit length; random inside the range; field fractions y/2^k mod r with small y) x gadget {RangeCheck, RangeCheckQE on pairs, RangeCheckWithMaxBits(n), n in 1..64,96,128,144,192} x configuration {engine: native / plain / commit(padded to 70k checks), each also with USE_BIT_DECOMPOSITION_RANGE_CHECK; compiled R1CS and SCS built for native-range-checker wrapper (two kinds: one whose Compiler() is the wrapper, a thin one whose Compiler() is the plain builder) / commit / forced bits; gnark test engine}; out-of-range values are also tried with dishonest limb hints and a dishonest bit-decomposition hint; 'populations': one w-bit check (w in 16,32,48,64) plus 0..72000 padding checks compiled for R1CS and SCS under the commit checker - circuits the chip refuses are counted, circuits that compile must be exact at 2^w-1, 2^(w+j), 2^(w+j)+1; sizes are rapid-drawn and additionally swept with one size per geometric bucket of ratio 1.15 (thorough 1.04) per builder and padding kind, and at every size where gnark's limb-width optimiser (cost formulas re-implemented from gnark's source) changes its choice or is tied, +-1.  Oracle: accepted <=> v < p (resp. v < 2^n); commit-mode widths not multiple of 16 may be refused.  Non-trivial = value within 2 of a range/field boundary or a dishonest hint; distinct = (v, n, configuration, hint).")
 	r.Assume("gnark v0.9.1 builders/solver and std/rangecheck as shipped", "the native-range-checker builder wrapper implements Check by bit decomposition inside the wrapped builder")
 
 	var rp c06Replay
@@ -612,6 +612,10 @@ func TestC06(t *testing.T) {
 			for _, w := range compWidths {
 				keys = append(keys, c06SysKey{kind, mech, w})
 			}
+		}
+		// thin wrapper (only adds Check; its Compiler() is the plain builder underneath)
+		for _, w := range []uint64{0, 1, 17, 33, 48, 63} {
+			keys = append(keys, c06SysKey{kind, cs.MechNativeThin, w})
 		}
 		for _, w := range commitWidths {
 			keys = append(keys, c06SysKey{kind, cs.MechCommit, w})
